@@ -403,7 +403,7 @@ def bounded(tier, seed):
                 if f:
                     return n, f, {'kinds': ''.join(kinds), 'order': list(order)}
     rnd = random.Random(seed)
-    for _ in range(150 if tier == 'thorough' else 30):
+    for _ in range(1500 if tier == 'thorough' else 30):
         N = rnd.randrange(3, 6)
         kinds = [rnd.choice(kinds_all) for _ in range(N)]
         order = list(range(N))
